@@ -428,6 +428,10 @@ func (s *socket) MaybeUpgrade(transport transports.Transport) {
 	// listener above existed: nobody would ever dismiss the candidate
 	if s.ReadyState() == "closed" {
 		onClose()
+	} else if transport.ReadyState() == "closed" {
+		// likewise the candidate's connection: its reader runs since the transport was
+		// constructed and may have met the end of the stream already
+		onTransportClose()
 	}
 }
 
